@@ -595,6 +595,13 @@ def expressions(tier: str) -> t.List[t.Any]:
               ['union', 'tuplevar', 'int'] if False else ['union', ['tuplevar', 'int'], ['list', 'int']],
               ['union', ['set', 'int'], ['list', 'int']], ['union', 'dc_defaults', 'dc_both']):
         add(e)
+    # overlapping unions in BOTH orders inside containers: list[Union[int, float]] == list[Union[float, int]] (and hash alike) yet
+    # they convert differently - e1 puts order twins in one shard, so a memo that confuses them shows
+    for a, b in (('int', 'float'), ('str', 'date'), ('dc_struct', 'dc_sub'), (['list', 'int'], ['tuplevar', 'int'])):
+        for u in (['union', a, b], ['union', b, a]):
+            for e in (['list', u], ['tuplevar', u], ['dict', 'str', u], ['deque', u], ['tuple', u, 'int'], ['struct', ['k', u]],
+                      ['optional', u], ['list', ['list', u]]):
+                add(e)
     for tri in (['union', 'int', 'float', 'str'], ['union', 'str', 'int', 'none'], ['union', 'bool', 'int', 'float'],
                 ['union', 'lit_str', ['list', 'int'], 'none'], ['union', 'dc_struct', 'dc_both', 'str']):
         add(tri)
